@@ -94,3 +94,6 @@ func TestC02Regress(t *testing.T) { hx.Regress(t, hC02, "TestC02", propC02) }
 func TestC02(t *testing.T) {
 	hx.Check(t, hC02, "TestC02", func(rt *rapidT) History { return genHistory(rt, c02Cfg) }, propC02)
 }
+
+// TestC02Large: see heldBackHistories.
+func TestC02Large(t *testing.T) { runHeldBack(t, hC02, "TestC02", propC02) }
